@@ -447,7 +447,7 @@ func (a *strAnalysis) events(fn *ssa.Function, env []scls, ev *ordEvents, depth 
 }
 
 func (k *checker) persist8() {
-	bld := k.fn("generator/graph", "Instance.buildNodeGraphInstanceSchema")
+	bld := k.nodeEncoder()
 	if bld == nil {
 		return
 	}
